@@ -143,8 +143,19 @@ fn key_strategy() -> impl Strategy<Value = KeySpec> {
     (0u16..=u16::MAX, any::<bool>(), any::<bool>(), enc_strategy()).prop_map(|(t, desc, nulls_first, enc)| KeySpec { ty: KEY_TYPES[pick_index(t, KEY_TYPES.len())], desc, nulls_first, enc })
 }
 
-fn cell_strategy(domain: u8) -> impl Strategy<Value = Option<u8>> {
-    prop_oneof![1 => Just(None), 5 => (0u8..domain).prop_map(Some)]
+/// `nullw`: NULL weight against 6 for a value (1 → 14 %, 6 → 50 %, 24 → 80 % NULLs)
+fn cell_strategy(domain: u8, nullw: u32) -> impl Strategy<Value = Option<u8>> {
+    prop_oneof![nullw => Just(None), 6 => (0u8..domain).prop_map(Some)]
+}
+
+/// fetch values ≥ FRAC are resolved against the generated row count n: k = 1 + (choice · n) >> 15,
+/// so that the limit falls inside the table (and near its end) instead of mostly beyond it
+const FRAC: u16 = 0x8000;
+fn resolve_fetch(f: Option<u16>, n: usize) -> Option<u16> {
+    match f {
+        Some(v) if v >= FRAC => Some(1 + ((((v - FRAC) as usize) * n.max(1)) >> 15) as u16),
+        other => other,
+    }
 }
 
 fn opts_strategy(tier: Tier, spill: bool) -> BoxedStrategy<ExecOpts> {
@@ -185,7 +196,9 @@ fn fetch_strategy(max_rows: usize) -> impl Strategy<Value = Option<u16>> {
     prop_oneof![
         3 => Just(None),
         1 => Just(Some(1u16)),
-        3 => (1u16..(max_rows as u16 + 2)).prop_map(Some),
+        1 => (1u16..(max_rows as u16 + 2)).prop_map(Some),
+        3 => (FRAC..=u16::MAX).prop_map(Some),
+        1 => ((FRAC + 0x7000)..=u16::MAX).prop_map(Some),
         1 => Just(Some(max_rows as u16 + 5)),
     ]
 }
@@ -200,7 +213,10 @@ impl C08 {
         (1usize..=3, prop_oneof![2 => Just(3u8), 2 => Just(5u8), 1 => Just(10u8)], 1u8..=8, 0u8..6)
             .prop_flat_map(move |(nk, domain, parts, opk)| {
                 let keys = prop::collection::vec(key_strategy(), nk);
-                let rows = prop::collection::vec((prop::collection::vec(cell_strategy(domain), nk), 0u8..parts).prop_map(|(k, part)| Row { k, part }), 0..=max_rows);
+                let rows = prop::collection::vec(prop_oneof![3 => Just(1u32), 2 => Just(6u32), 1 => Just(24u32)], nk).prop_flat_map(move |nullw| {
+                    let cells: Vec<_> = nullw.iter().map(|w| cell_strategy(domain, *w)).collect();
+                    prop::collection::vec((cells, 0u8..parts).prop_map(|(k, part)| Row { k, part }), 0..=max_rows)
+                });
                 let cuts = prop::collection::vec(prop_oneof![1 => Just(0u8), 2 => 1u8..4, 3 => 4u8..60], 1..6);
                 let op: BoxedStrategy<(Op, bool)> = match opk {
                     // plain / top-k sort
@@ -226,7 +242,16 @@ impl C08 {
                 (keys, rows, cuts, op, prop_oneof![3 => Just(0u8), 1 => 1u8..4], Just(parts))
             })
             .prop_flat_map(move |(keys, rows, cuts, (op, spill), jitter, parts)| (Just(keys), Just(rows), Just(cuts), Just(op), opts_strategy(tier, spill), Just(jitter), Just(parts)))
-            .prop_map(|(keys, rows, cuts, op, opts, jitter, parts)| Case { keys, rows, parts, cuts, op, opts, jitter })
+            .prop_map(|(keys, rows, cuts, op, opts, jitter, parts)| {
+                let n = rows.len();
+                let op = match op {
+                    Op::Sort { fetch, preserve, presorted } => Op::Sort { fetch: resolve_fetch(fetch, n), preserve, presorted },
+                    Op::Spm { fetch, round_robin } => Op::Spm { fetch: resolve_fetch(fetch, n), round_robin },
+                    Op::PartialSort { prefix, fetch, preserve } => Op::PartialSort { prefix, fetch: resolve_fetch(fetch, n), preserve },
+                    other => other,
+                };
+                Case { keys, rows, parts, cuts, op, opts, jitter }
+            })
             .boxed()
     }
 }
@@ -762,6 +787,19 @@ fn run_case(case: &Case) -> CaseResult {
         for i in 0..k {
             if lex_cmp(&union[i][..nk], &reference[i].keys, keys) != Ordering::Equal {
                 return CaseResult::violation(format!("merged partitions of SortExec(fetch={fetch_of:?}): position {i} holds keys {} but the reference order has {:?}", show_row(&union[i][..nk]), reference[i].keys)).labels(labels);
+            }
+        }
+    }
+    if let (Some(f), Op::Sort { presorted, .. }) = (fetch_of, &case.op) {
+        if f >= 1 && f <= all_rows.len() && (*presorted as usize) < nk && nk >= 2 {
+            let mut reference: Vec<&PRow> = all_rows.clone();
+            reference.sort_by(|a, b| lex_cmp(&a.keys, &b.keys, keys));
+            let kth = reference[f - 1];
+            if (0..nk - 1).any(|i| !keys[i].nulls_first && kth.keys[i].is_null()) {
+                labels.push("topk:kth-row-null-on-nulls-last-prefix-key".into());
+            }
+            if (0..nk - 1).any(|i| keys[i].nulls_first && kth.keys[i].is_null()) {
+                labels.push("topk:kth-row-null-on-nulls-first-prefix-key".into());
             }
         }
     }
